@@ -506,10 +506,11 @@ def checkIndexes (σ : DbModel) (db : Database) (tx : Txn) : Bool :=
       match get? tc.2.rows u with
       | none => false
       | some row =>
-        -- a duplicate among the final rows of the transaction (they are indexed anew with checks)
-        tc.2.ixs.any (fun ix => ix.spec.isSchema &&
+        -- a duplicate among the final rows of the transaction (they are indexed anew, with
+        -- the schema indexes and with checks)
+        (σ.specsOf tc.1).any (fun s => s.isSchema &&
           (keys tc.2.rows).eraseDups.any (fun u' => u' != u &&
-            (get? tc.2.rows u').map (idxVal ix.spec) == some (idxVal ix.spec row))) ||
+            (get? tc.2.rows u').map (idxVal s) == some (idxVal s row))) ||
         -- a database row, neither deleted nor updated by the transaction, with the same
         -- values in all the columns of a schema index (looked up index by index)
         dbc.ixs.any (fun ix => ix.spec.isSchema &&
@@ -561,6 +562,12 @@ def commitPhase (σ : DbModel) (db : Database) (results : List OpResult) (tx : T
           if checkIndexes σ db tx2 then ⟨results ++ [{ error := some "constraint violation" }], [], false⟩
           else ⟨results, upd, true⟩
 
+/-- the transaction's own cache: built without schema indexes (repair of defect
+    D44: a schema index holds one row per value and would lose rows while the
+    transaction holds transient duplicates) -/
+def txnCacheEmpty (σ : DbModel) : Database :=
+  σ.schema.map (fun p => (p.1, Cache.empty ((σ.specsOf p.1).filter (fun s => !s.isSchema))))
+
 /-- `Transaction.Transact(ops...)` on a fresh transaction.  `results` has one
     entry per executed operation (the Go slice additionally holds nil for the
     operations after a failing one). -/
@@ -568,7 +575,7 @@ def transact (σ : DbModel) (db : Database) (ops : List Operation) : TxnResult :
   match expandNamedUUIDs σ ops with
   | .error e => ⟨[{ error := some e }], [], false⟩
   | .ok ops' =>
-    match runOps σ db { cache := Database.empty σ } ops' with
+    match runOps σ db { cache := txnCacheEmpty σ } ops' with
     | (results, _, false) => ⟨results, [], false⟩
     | (results, tx, true) =>
       if tx.updates.isEmpty then ⟨results, [], true⟩ else commitPhase σ db results tx
